@@ -74,7 +74,8 @@ def lock_facts(reg):
     call_blk = after[m2.end():match_brace(after, m2.end() - 1) - 1]
     if "f.call(" not in call_blk.replace(" ", "").replace("\n", "").replace(".call(", ".call(") and ".call(" not in call_blk:
         raise ExtractError("dispatch_with_ctx: call branch does not call")
-    if len(acq.findall(after)) != 1: raise ExtractError("dispatch_with_ctx: more than one lock acquisition after the lookup")
+    # dangerous form, not an extraction failure: more lock acquisitions after the lookup = the write is not one section
+    n_acq_after = len(acq.findall(after))
     wr = after[w:]
     mut = min([i for i in (wr.find("set_pointer("), wr.find("ensure_object_root(")) if i >= 0], default=-1)
     if mut < 0: raise ExtractError("dispatch_with_ctx: no mutation after write_state")
@@ -82,7 +83,9 @@ def lock_facts(reg):
     recheck = re.search(r"state\s*\.\s*functions\s*\.\s*(get|contains_key)\(\s*key\.as_ref\(\)\s*\)", head) is not None
     if recheck and ".call(" not in wr:
         raise ExtractError("dispatch_with_ctx: function map re-read under the write lock but no call follows")
-    return single, read_single, recheck
+    # the only legitimate early release is the one before calling a callable found by the re-check
+    write_single = n_acq_after == 1 and after.count("drop(state)") <= (1 if recheck else 0)
+    return single, read_single, recheck, write_single
 
 
 def map_sorted():
@@ -93,11 +96,61 @@ def map_sorted():
     return '"indexmap"' not in m.group(1) and "preserve_order" not in toml
 
 
+def body_formats():
+    consts = test_mod_cut(strip(read("src/constants.rs")))
+    m = re.search(r"pub enum BodyFormat\s*\{", consts)
+    if not m: raise ExtractError("enum BodyFormat")
+    body = consts[m.end():match_brace(consts, m.end() - 1) - 1]
+    fm = [(n, int(v)) for n, v in re.findall(r"\b([A-Z]\w*)\s*=\s*([0-9]+)\s*,", body)]
+    if not fm: raise ExtractError("BodyFormat discriminants")
+    return fm
+
+
+def shape_facts(reg):
+    """Boolean shape facts; a form that is not recognised gives the pessimistic value False."""
+    f = {}
+    sq = r"' '"  # a char literal after strip()
+    slash_guard = r"if !pointer\.starts_with\(" + sq + r"\)\s*\{\s*return Err\(RegistryError::InvalidPointer"
+    try:
+        f["parsePointerRequiresSlash"] = re.search(slash_guard, fn_body(reg, "parse_pointer")) is not None
+        f["canonicalKeyRequiresSlash"] = re.search(slash_guard, fn_body(reg, "canonical_key")) is not None
+    except ExtractError:
+        f["parsePointerRequiresSlash"] = f["canonicalKeyRequiresSlash"] = False
+    try:
+        imp = impl_block(reg, r"impl Registry\s*\{")
+        d = fn_body(imp, "dispatch_with_ctx")
+        m = re.search(r"if segments\.is_empty\(\)\s*\{", d)
+        blk = d[m.end():match_brace(d, m.end() - 1) - 1]
+        a, b = blk.find("let Value::Object(object) = payload else"), blk.find("ensure_object_root(")
+        f["rootWriteChecksBodyFirst"] = 0 <= a < b and "RootWriteRequiresObject" in blk[a:b]
+        db = statements(fn_body(imp, "decode_body"))
+        f["decodeEmptyBodyFirst"] = bool(db) and " ".join(db[0].split()).startswith("if req.body.is_empty() { return Ok(None);")
+    except Exception:
+        f.setdefault("rootWriteChecksBodyFirst", False); f.setdefault("decodeEmptyBodyFirst", False)
+    try:
+        srv = test_mod_cut(strip(read("src/server.rs")))
+        rr = impl_block(srv, r"impl RegisteredRegistry\s*\{")
+        pf = " ".join(fn_body(rr, "pointer_for").split())
+        f["pointerForStripsOnce"] = ("path.strip_prefix(&self.prefix)?" in pf and "trim_start_matches" not in pf
+                                     and "if rest.starts_with(" + sq + ") { Some(rest) } else { None }" in pf)
+        he = impl_block(srv, r"impl HandlerErased for RegisteredRegistry\s*\{")
+        ok = True
+        for fn in ("handle", "handle_with_ctx"):
+            b = fn_body(he, fn)
+            pos = [b.find("self.pointer_for("), b.find("Registry::decode_body("), b.find("self.registry.dispatch")]
+            ok = ok and -1 not in pos and pos == sorted(pos) and b.count("self.registry.dispatch") == 1
+        f["handleOrder"] = ok
+    except Exception:
+        f.setdefault("pointerForStripsOnce", False); f.setdefault("handleOrder", False)
+    return f
+
+
 def extract():
     reg = test_mod_cut(strip(read("src/registry.rs")))
-    single, read_single, recheck = lock_facts(reg)
-    return {"errorCodes": error_codes(), "registryErrorCode": variant_table(reg), "singleSection": single,
-            "readDispatchSingleSection": read_single, "lookupThenWriteLock": True,
+    single, read_single, recheck, write_single = lock_facts(reg)
+    shape = shape_facts(reg)
+    return {"bodyFormats": body_formats(), "shape": shape, "errorCodes": error_codes(), "registryErrorCode": variant_table(reg), "singleSection": single,
+            "readDispatchSingleSection": read_single, "lookupThenWriteLock": True, "writeSectionSingle": write_single,
             "recheckUnderWriteLock": recheck, "mapSorted": map_sorted()}
 
 
@@ -117,11 +170,21 @@ def render(f):
          f"def readDispatchSingleSection : Bool := {lb(f['readDispatchSingleSection'])}",
          "/-- body-bearing dispatch: function map read in its own read-lock block, then the write lock -/",
          f"def lookupThenWriteLock : Bool := {lb(f['lookupThenWriteLock'])}",
+         "/-- after the lookup the write lock is taken exactly once and held over the whole mutation -/",
+         f"def writeSectionSingle : Bool := {lb(f['writeSectionSingle'])}",
          "/-- the write-lock region looks the function map up again before mutating -/",
          f"def recheckUnderWriteLock : Bool := {lb(f['recheckUnderWriteLock'])}",
          "/-- serde_json is built without `preserve_order`: `Map` is a `BTreeMap` -/",
          f"def mapSorted : Bool := {lb(f['mapSorted'])}",
-         "end Repe.Gen.Registry"]
+         "/-- `BodyFormat` discriminants (constants.rs) -/",
+         "def bodyFormats : List (String × Nat) := [" + ", ".join(f'("{n}", {v})' for n, v in f["bodyFormats"]) + "]",
+         "/-- shape facts (unrecognised form = false): leading-slash guards, body check before `ensure_object_root` in the",
+         "root write, empty body first in `decode_body`, `pointer_for` strips the prefix once at a '/' boundary,",
+         "`handle`/`handle_with_ctx` = pointer_for, decode_body, one dispatch -/"]
+    for k in ("parsePointerRequiresSlash", "canonicalKeyRequiresSlash", "rootWriteChecksBodyFirst", "decodeEmptyBodyFirst",
+              "pointerForStripsOnce", "handleOrder"):
+        L.append(f"def {k} : Bool := {lb(f['shape'][k])}")
+    L += ["end Repe.Gen.Registry"]
     return "\n".join(L) + "\n"
 
 
